@@ -226,6 +226,32 @@ def derives_from_capacity(T, f, e, depth=0):
     return False
 
 
+def depends_on_slot_index(T, f, e, depth=0, seen=None):
+    """does the expression mention (through single-function lets/assignments) a value that already is a slot index: the
+    result of another `% capacity` / `& mask`, of home_slot(..) or of find_ind(..)?  Such an expression is index
+    arithmetic (probe step, cyclic distance), not the mapping of a hash to its home bucket."""
+    if seen is None:
+        seen = set()
+    if e is None or depth > 8:
+        return False
+    for x in hir_walk(e):
+        k = x.get("k")
+        if k in ("call", "mcall") and any(n.endswith("::home_slot") or n.endswith("::find_ind") for n in hir_callee(x)):
+            return True
+        if k == "path" and x["path"]["res"]["k"] == "local":
+            lid = x["path"]["res"]["id"]
+            if lid in seen:
+                continue
+            seen.add(lid)
+            for i in hu.let_inits(f).get(lid, []):
+                ii = hu.strip_casts(i)
+                if ii is not None and ii.get("k") == "bin" and ii["op"] in ("Rem", "BitAnd") and derives_from_capacity(T, f, ii["r"]):
+                    return True
+                if depends_on_slot_index(T, f, i, depth + 1, seen):
+                    return True
+    return False
+
+
 def norm_home(e):
     """normal form of the hashed side of a bucket computation; locals become '$', casts are dropped"""
     e = hu.strip_casts(e)
@@ -265,6 +291,8 @@ def rule_home(T, rid):
                     continue   # probe step (i + 1) % capacity
                 if derives_from_capacity(T, f, x["l"]):
                     continue   # power-of-two test  len & (len - 1)
+                if depends_on_slot_index(T, f, x["l"]):
+                    continue   # arithmetic on slot indices (cyclic distance), decided by the back-shift analysis
                 homes.append((f, x, norm_home(x["l"])))
     # a dedicated helper: calls count as the helper's expression
     if not homes:
